@@ -45,28 +45,43 @@ def confirm(prop, src, wt, offset=0):
     for r in res: print(r)
 
 def run(ids):
+    """SEED_WT=<dir>: apply each patch in a scratch worktree <dir> of /repo's HEAD (ATHLIB_REPO=<dir> for the check)
+    instead of /repo itself — for use while something else is reading /repo"""
     dirs = sorted(glob.glob(os.path.join(VERIF, 'seeded', '*')))
     out = []
-    for d in dirs:
-        sid = os.path.basename(d)
-        if ids and sid not in ids and not any(sid.startswith(i) for i in ids): continue
-        meta = json.load(open(os.path.join(d, 'meta.json')))
-        props = meta.get('checks') or [meta['property']]
-        rc, o = sh(['git', '-C', '/repo', 'status', '--porcelain', '--untracked-files=no'])
-        assert o.strip() == '', '/repo is dirty: ' + o
-        rca, oa = sh(['git', '-C', '/repo', 'apply', os.path.join(d, 'patch.diff')])
-        try:
-            for prop in props:
-                if rca != 0:
-                    out.append((sid, prop, 'patch does not apply', oa[:200])); continue
-                rc, o = sh([PY, 'tools/vcheck.py', '--property', prop, '--tier', 'quick'], cwd=VERIF)
-                vl = [l for l in o.split('\n') if l.startswith('VIOLATION')]
-                out.append((sid, prop, 'exit %d' % rc, vl[0] if vl else o.strip().split('\n')[-1][:200]))
-                meta.setdefault('detected_by', {})[prop] = {'exit': rc, 'line': vl[0] if vl else None}
-        finally:
-            sh(['git', '-C', '/repo', 'checkout', '--', '.'])
-        json.dump(meta, open(os.path.join(d, 'meta.json'), 'w'), indent=1)
-        print(out[-1], flush=True)
+    wt = os.environ.get('SEED_WT')
+    target = wt or '/repo'
+    env = dict(os.environ)
+    if wt:
+        sh(['git', '-C', '/repo', 'worktree', 'remove', '--force', wt])
+        rc, o = sh(['git', '-C', '/repo', 'worktree', 'add', '-q', '--detach', wt, 'HEAD'])
+        assert rc == 0, o
+        env['ATHLIB_REPO'] = wt
+    try:
+        for d in dirs:
+            sid = os.path.basename(d)
+            if ids and sid not in ids and not any(sid.startswith(i) for i in ids): continue
+            meta = json.load(open(os.path.join(d, 'meta.json')))
+            props = meta.get('checks') or [meta['property']]
+            rc, o = sh(['git', '-C', target, 'status', '--porcelain', '--untracked-files=no'])
+            assert o.strip() == '', target + ' is dirty: ' + o
+            rca, oa = sh(['git', '-C', target, 'apply', os.path.join(d, 'patch.diff')])
+            try:
+                for prop in props:
+                    if rca != 0:
+                        out.append((sid, prop, 'patch does not apply', oa[:200])); continue
+                    p = subprocess.run([PY, 'tools/vcheck.py', '--property', prop, '--tier', 'quick'], cwd=VERIF, capture_output=True, text=True, timeout=3000, env=env)
+                    rc, o = p.returncode, p.stdout + p.stderr
+                    vl = [l for l in o.split('\n') if l.startswith('VIOLATION')]
+                    out.append((sid, prop, 'exit %d' % rc, vl[0] if vl else o.strip().split('\n')[-1][:200]))
+                    meta.setdefault('detected_by', {})[prop] = {'exit': rc, 'line': vl[0] if vl else None}
+            finally:
+                sh(['git', '-C', target, 'checkout', '--', '.'])
+            json.dump(meta, open(os.path.join(d, 'meta.json'), 'w'), indent=1)
+            print(out[-1], flush=True)
+    finally:
+        if wt:
+            sh(['git', '-C', '/repo', 'worktree', 'remove', '--force', wt])
     return out
 
 if __name__ == '__main__':
